@@ -148,7 +148,24 @@ class World:
             return w.uf.call("eta", [temperature], positive=True)
         px_ns = shadow(EM + ".pxcorr", np=npx)
         sc_ns = shadow(EM + ".scale_linear", np=npx)
-        ld_ns = shadow(EM + ".load", np=npx)
+        # file parsing is I/O: the parser stub returns a FRESH copy of the
+        # symbolic table on every call (its contract); identifiers resolve
+        # to a fixed path
+        import pathlib as _pl
+        wself = self
+
+        def load_mtext(path):
+            lut, meta = wself.lut()
+            wself.parsed = getattr(wself, "parsed", 0) + 1
+            return lut, meta
+
+        def get_lut_path(path_or_id):
+            return _pl.Path("/luts/%s.txt" % path_or_id)
+        ld_ns = shadow(EM + ".load", np=npx, load_mtext=load_mtext,
+                       get_lut_path=get_lut_path,
+                       EXTERNAL_LUTS={"verif-registered":
+                                      _pl.Path("/luts/verif-registered.txt")})
+        self.ld_ns = ld_ns
         ns = shadow(EM, np=npx, spint=spint, get_viscosity=get_viscosity,
                     get_pixelation_delta=px_ns["get_pixelation_delta"],
                     scale_feature=sc_ns["scale_feature"],
@@ -156,7 +173,7 @@ class World:
                     load_lut=ld_ns["load_lut"])
         return ns, px_ns
 
-    def call(self, route, scale=None):
+    def call(self, route, scale=None, lut_id=None):
         """run the real get_emodulus; route: 'scalar-visc' (numeric medium),
         'scalar-temp' (known medium + one temperature), 'array-temp'"""
         ns, px_ns = self.namespaces()
@@ -171,7 +188,8 @@ class World:
         darr = SArr(list(self.d), float)
         lut, meta = self.lut()
         kw = dict(deform=darr, channel_width=L, flow_rate=Q, px_um=px,
-                  lut_data=(lut, meta), extrapolate=False)
+                  lut_data=(lut, meta) if lut_id is None else lut_id,
+                  extrapolate=False)
         kw["area_um" if pw == 2 else "volume"] = xarr
         if route == "scalar-visc":
             eta = self.eng.real("eta_direct").e
@@ -313,8 +331,16 @@ def run(eng, p):
                       "joint geometric rescaling leaves the modulus "
                       "unchanged")
     elif kind == "second-call":
-        r1 = w.call(p["route"])
-        r2 = w.call(p["route"])
+        lid = p.get("lut_id")
+        r1 = w.call(p["route"], lut_id=lid)
+        r2 = w.call(p["route"], lut_id=lid)
+        if lid is not None:
+            with quiet():
+                lut3, meta3 = w.ld_ns["load_lut"](lid)
+            ref, _ = w.lut()
+            eng.prove(z3.And([toreal(a) == toreal(b) for ra, rb in zip(
+                list(lut3), list(ref)) for a, b in zip(list(ra), list(rb))]),
+                "a registered LUT is not modified by computing with it")
         g1, g2 = r1["grid"], r2["grid"]
         eng.prove(z3.And(
             [toreal(a) == toreal(b) for a, b in zip(
@@ -356,16 +382,81 @@ def cases(tier, seed):
             out.append(("%s second-call %s" % (featx, route), dict(
                 check="second-call", route=route, featx=featx, nlut=3,
                 nev=1)))
+            for lid in ("verif-registered", "LE-2D-FEM-19"):
+                if featx == "volume" and lid != "verif-registered":
+                    continue
+                out.append(("%s second-call %s lut=%s" % (featx, route, lid),
+                            dict(check="second-call", route=route,
+                                 featx=featx, nlut=3, nev=1, lut_id=lid)))
     random.Random(seed).shuffle(out)
     return out
 
 
 # ------------------------------------------------------------------ replay
+def replay_registered(p):
+    """register a LUT file, compute twice with its identifier: results and
+    the table returned by load_lut must not change"""
+    import os
+    import shutil
+    import tempfile
+    import dclab.features.emodulus as em
+    from dclab.features.emodulus import load as ld
+    fails = []
+    with quiet(), tempfile.TemporaryDirectory(prefix="verif_c05_") as td:
+        src = ld.get_lut_path("LE-2D-FEM-19" if p["featx"] == "area_um"
+                              else "LE-2D-FEM-19-volume"
+                              if "LE-2D-FEM-19-volume" in
+                              ld.get_internal_lut_names_dict()
+                              else "LE-2D-FEM-19")
+        dst = os.path.join(td, "mylut.txt")
+        shutil.copy(src, dst)
+        ident = "verif-c05-registered"
+        ld.EXTERNAL_LUTS.pop(ident, None)
+        ld.register_lut(dst, identifier=ident)
+        try:
+            lut0, meta0 = ld.load_lut(ident)
+            featx = meta0["column features"][0]
+            rs = np.random.RandomState(5)
+            n = 50
+            if featx == "area_um":
+                x = rs.uniform(40, 250, n)
+            else:
+                x = rs.uniform(300, 2500, n)
+            d = rs.uniform(0.01, 0.15, n)
+            kw = dict(deform=d, medium="CellCarrier", channel_width=20.0,
+                      flow_rate=0.04, px_um=0.34, temperature=23.0,
+                      visc_model="buyukurganci-2022", lut_data=ident)
+            kw[featx] = x
+            res = [em.get_emodulus(**kw) for _ in range(3)]
+            for i in (1, 2):
+                if not np.array_equal(res[0], res[i], equal_nan=True):
+                    fails.append("call %d with the registered LUT yields %d "
+                                 "valid events, the first call %d" % (
+                                     i + 1, np.sum(~np.isnan(res[i])),
+                                     np.sum(~np.isnan(res[0]))))
+                    break
+            lut1, _ = ld.load_lut(ident)
+            if not np.array_equal(lut0, lut1):
+                fails.append("load_lut(%r) returns a modified table after "
+                             "get_emodulus (max %s: %g vs %g)" % (
+                                 ident, featx, lut1[:, 0].max(),
+                                 lut0[:, 0].max()))
+        finally:
+            ld.EXTERNAL_LUTS.pop(ident, None)
+    if not fails:
+        return {"reproduced": False, "key": "not-reproduced",
+                "detail": "repeated calls with a registered LUT agree"}
+    return {"reproduced": True, "key": "get_emodulus|registered-lut-state",
+            "detail": fails[0]}
+
+
 def replay(case, params, v):
     """real get_emodulus + real scipy on a small concrete LUT built from the
     model values: the two routes and the documented scaling must agree"""
     vals = v.get("values") or {}
     p = params
+    if p.get("lut_id"):
+        return replay_registered(p)
     ge = real(EM, "get_emodulus")
     nl = p["nlut"]
 
